@@ -135,7 +135,7 @@ var familyLangs = map[string][]string{
 	"html": {"html", "html.tmpl.go", "html.tmpl.handlebars", "html.tmpl.mustache", "html.tmpl.ejs", "html.tmpl.asp", "html.tmpl.php"},
 	"xml":  {"xml"},
 	"json": {"json"},
-	"js":   {"js.lex", "js.lex.re", "js.parse"},
+	"js":   {"js.lex", "js.lex.re", "js.lex.re.any", "js.parse"},
 }
 
 // Classes: every class string emitted by TLC (spec/proto/AllStrings.tla), concretised by seed, through every
